@@ -102,9 +102,25 @@ func c18StmtKind(line string) string {
 	return ""
 }
 
+var c18DotAttrs = map[string]bool{"label": true, "id": true, "fontsize": true, "shape": true, "tooltip": true, "color": true,
+	"fillcolor": true, "style": true, "peripheries": true, "URL": true, "target": true, "weight": true, "penwidth": true,
+	"labeltooltip": true, "minlen": true}
+
+var c18AttrOrder = map[string][]string{
+	"legend":               {"shape", "fontsize", "label", "URL", "target", "tooltip"},
+	"node":                 {"label", "id", "fontsize", "shape", "tooltip", "color", "fillcolor", "style", "peripheries", "URL", "target"},
+	"nodelet":              {"label", "id", "fontsize", "shape", "tooltip"},
+	"numeric-nodelet":      {"label", "id", "fontsize", "shape", "tooltip"},
+	"nodelet-edge":         {"label", "weight", "tooltip", "labeltooltip", "style"},
+	"numeric-nodelet-edge": {"label", "weight", "tooltip", "labeltooltip", "style"},
+	"edge":                 {"label", "weight", "penwidth", "color", "tooltip", "labeltooltip", "style", "minlen"},
+}
+
 // c18ScanAttrs walks `key=value` pairs of one statement line; returns the key at which the line
 // stops being well-formed ("" if the whole line is fine) and the last key seen.
 func c18ScanAttrs(line string) (badKey, lastKey string) {
+	order := c18AttrOrder[c18StmtKind(line)]
+	oi := 0
 	i := strings.IndexByte(line, '[')
 	if strings.HasPrefix(line, "digraph ") {
 		// digraph "title" {
@@ -146,6 +162,28 @@ func c18ScanAttrs(line string) (badKey, lastKey string) {
 			return lastKey, lastKey
 		}
 		key := s[:j]
+		if !c18DotAttrs[key] {
+			// not an attribute pprof emits: text of the previous value leaking out of its quotes
+			if lastKey == "" {
+				lastKey = "id"
+			}
+			return lastKey, lastKey
+		}
+		if order != nil {
+			// pprof writes the attributes of a statement in a fixed order: a key out of order is
+			// text that escaped from the previous value
+			k := oi
+			for k < len(order) && order[k] != key {
+				k++
+			}
+			if k == len(order) {
+				if lastKey == "" {
+					lastKey = "id"
+				}
+				return lastKey, lastKey
+			}
+			oi = k + 1
+		}
 		s = strings.TrimLeft(s[j:], " ")
 		if s == "" || s[0] != '=' {
 			if lastKey == "" {
@@ -202,31 +240,60 @@ func c18QuotedLen(s string) int {
 }
 
 // c18DotSite names the emitting site of the first malformed statement: <statement kind>-<attribute>.
-func c18DotSite(out []byte) string {
+// The first bad line is located with the Lean parser itself (smallest prefix of lines that,
+// closed with "}", is rejected); the attribute inside it with the scanner above.
+func c18DotSite(c *Ctx, out []byte) string {
 	lines := strings.Split(string(out), "\n")
-	prevKind, prevKey := "", ""
-	for _, l := range lines {
-		if l == "" {
-			if prevKind != "" && prevKind != "end" {
-				// an empty line inside the document: a raw newline in the previous statement
-				return prevKind + "-" + prevKey
-			}
-			continue
-		}
-		k := c18StmtKind(l)
-		if k == "" {
-			if prevKind == "" {
-				return "header"
-			}
-			return prevKind + "-" + prevKey
-		}
-		bad, last := c18ScanAttrs(l)
-		if bad != "" {
-			return k + "-" + bad
-		}
-		prevKind, prevKey = k, last
+	ok := func(k int) bool {
+		text := strings.Join(lines[:k], "\n") + "\n}\n"
+		return strings.HasPrefix(c.Drv.Ask("dot.check "+hexTok([]byte(text))), "ok ")
 	}
-	return "unknown"
+	lo, hi := 1, len(lines) // invariant: prefixes shorter than lo are fine; the prefix of length hi is not (whole text failed)
+	if !ok(1) {
+		hi = 1
+	} else {
+		lo = 1
+		for lo+1 < hi {
+			mid := (lo + hi) / 2
+			if ok(mid) {
+				lo = mid
+			} else {
+				hi = mid
+			}
+		}
+	}
+	bad := hi - 1 // index of the first line that breaks the document
+	if bad < 0 || bad >= len(lines) {
+		return "unknown"
+	}
+	// the statement the bad line belongs to: itself, or the nearest statement start above it
+	// (a raw newline inside a string continues the statement on the next line)
+	start := bad
+	for start > 0 && c18StmtKind(lines[start]) == "" {
+		start--
+	}
+	kind := c18StmtKind(lines[start])
+	if kind == "" {
+		return "header"
+	}
+	if kind == "end" || kind == "defaults" {
+		// damage from an earlier statement only shows here
+		for start > 0 {
+			start--
+			if k := c18StmtKind(lines[start]); k != "" && k != "end" && k != "defaults" {
+				kind = k
+				break
+			}
+		}
+	}
+	badKey, last := c18ScanAttrs(lines[start])
+	if badKey == "" {
+		badKey = last
+	}
+	if badKey == "" {
+		badKey = "id"
+	}
+	return kind + "-" + badKey
 }
 
 // ---- callgrind ----
